@@ -1,9 +1,12 @@
 """C12 - conditional assembly selects exactly the documented branch.
 
-(B) real asl vs Model/Cond.lean (`run` + `endPass`), (C) Spec/Cond.lean (`selB`, `warnB`, `WellNested`) on what
-the real asl did.  Well-formed skeletons are packed many per source file (each at its own ORG window, leaves are
-`db <marker>`, markers read back from the .p through the Lean `pfile` reader, diagnostics from `-E` attributed by
-line number); arbitrary (mostly ill-formed) statement streams run one per file because they leave constructs
+(B) real asl vs Model/Cond.lean (`run` + `endPass`), (C) Spec/Cond.lean (`selB`, `warnB`, `WellNested`, `definedBy`,
+`usedBy`) on what the real asl did.  Well-formed skeletons are packed many per source file (each at its own ORG window,
+leaves are `db <marker>`, markers read back from the .p through the Lean `pfile` reader, diagnostics from `-E` attributed
+by line number).  Leaves may carry symbols (LEAF_KINDS: label in front of an instruction / a pseudo-op / a macro call
+with and without INTLABEL / a structure instantiation, EQU/SET lines, references), the same label may stand in several
+branches of one construct; after the construct every symbol is probed (IFDEF / IFNDEF / DEFINED() / SYMTYPE() / SWITCH
+DEFINED() emitting the symbol's value or FFFF, IFUSED / IFNUSED) - only the symbols of selected leaves may exist; arbitrary (mostly ill-formed) statement streams run one per file because they leave constructs
 open (leaves are `message "<marker>"` because asl deletes the code file when an error was reported).
 """
 import itertools
@@ -37,7 +40,14 @@ SEL3\tequ 3
     "lvb\tmacro PM\n\tswitch SEL3\n\tcase 1\n\tdb 238\n\tcase 3\n\tdb PM\n\texitm\n\tendcase\n\tdb 238\n\tendm\n"
     "lvc\tmacro PM\n\tif T1\n\tif F0\n\tdb 238\n\telse\n\tdb PM\n\texitm\n\tendif\n\tendif\n\tdb 238\n\tendm\n"
     "lvd\tmacro PM\n\trept 2\n\tif T1\n\tdb PM\n\texitm\n\tendif\n\tdb 238\n\tendm\n\tendm\n"
-    "lve\tmacro PM\n\tif F0\n\tdb 238\n\telseif T1\n\tdb PM\n\tendif\n\tendm\n")
+    "lve\tmacro PM\n\tif F0\n\tdb 238\n\telseif T1\n\tdb PM\n\tendif\n\tendm\n"
+    # leaves with a label in front: plain macro (the label labels the line), INTLABEL macros (the label is only the body's
+    # parameter __LABEL__: not used / placed as a global symbol / placed as a symbol local to the expansion), a structure
+    "lvp\tmacro PM\n\tdb PM\n\tendm\n"
+    "lvi\tmacro PM,{INTLABEL}\n\tdb PM\n\tendm\n"
+    "lvj\tmacro PM,{INTLABEL},{GLOBALSYMBOLS}\n__LABEL__:\tdb PM\n\tendm\n"
+    "lvk\tmacro PM,{INTLABEL}\n__LABEL__:\tdb PM\n\tendm\n"
+    "srec\tstruct\nfa\tds 1\nsrec\tendstruct\n")
 HEADER_LINES = HEADER.count("\n")
 LEAF_MACROS = ["lva", "lvb", "lvc", "lvd", "lve"]
 
@@ -77,13 +87,107 @@ def val_asm(rng, tok):
     return rng.choice(VAL_ASM[tok])
 
 
+# leaf kinds that involve a symbol: letter -> (weight, code bytes reserved)
+LEAF_KINDS = {"i": (2, 2), "p": (2, 1), "m": (4, 1), "n": (1.5, 1), "g": (1, 1), "k": (1, 1), "s": (1.5, 1), "e": (1.5, 0), "t": (1, 0),
+              "u": (1.5, 1)}
+ELEM = 500          # Spec.elemSym
+
+
+def sym_name(i):
+    """symbol number -> name template ('@' = number of the case inside the source file)"""
+    return "q@x%d" % i if i < ELEM else "q@x%d_fa" % (i - ELEM)
+
+
+def labelled(rng, name, rest):
+    """the three ways of writing a label"""
+    r = rng.random()
+    if r < 0.5:
+        return "%s:\t%s" % (name, rest)
+    if r < 0.8:
+        return "%s\t%s" % (name, rest)
+    return " %s: %s" % (name, rest)
+
+
+def spell_leaf(rng, kind, sym):
+    """asm text of a leaf about symbol `sym` (%d = its marker)"""
+    n = sym_name(sym)
+    if kind == "i":
+        return labelled(rng, n, "cp %d")
+    if kind == "p":
+        return labelled(rng, n, "db %d")
+    if kind == "m":
+        return labelled(rng, n, "%s %%d" % (rng.choice(LEAF_MACROS) if rng.random() < 0.4 else "lvp"))
+    if kind in "ngk":
+        return labelled(rng, n, "%s %%d" % {"n": "lvi", "g": "lvj", "k": "lvk"}[kind])
+    if kind == "s":
+        return labelled(rng, n, "srec")
+    if kind == "e":
+        return rng.choice(["%s\tequ %%d", "%s\t= %%d", "%s:\tequ %%d"]) % n
+    if kind == "t":
+        return rng.choice(["%s\t:= %%d", "%s\teval %%d"]) % n
+    return "\tdb r@x%d" % sym
+
+
+def decorate(rng, block, st, p):
+    """copy of the skeleton in which leaves carry symbols: ["leaf", kind, sym] (mutable: share_labels renames)"""
+    res = []
+    for node in block:
+        if node[0] == "leaf":
+            if len(node) == 1 and st["n"] < 8 and rng.random() < p:
+                st["n"] += 1
+                res.append(["leaf", rng.choices(st["kinds"], st["weights"])[0], st["n"]])
+            else:
+                res.append(node)
+        elif node[0] == "if":
+            _, cond, blk, elifs, els = node
+            res.append(("if", cond, decorate(rng, blk, st, p), [(c, decorate(rng, b, st, p)) for c, b in elifs],
+                        decorate(rng, els, st, p) if els is not None else None))
+        else:
+            _, sel, pre, cases, els = node
+            res.append(("sw", sel, decorate(rng, pre, st, p), [(v, decorate(rng, b, st, p)) for v, b in cases],
+                        decorate(rng, els, st, p) if els is not None else None))
+    return res
+
+
+def sym_leaves(block, acc):
+    for node in block:
+        if node[0] == "leaf":
+            if len(node) == 3:
+                acc.append(node)
+        else:
+            for b in [node[2]] + [b for _, b in node[3]] + ([node[4]] if node[4] is not None else []):
+                sym_leaves(b, acc)
+    return acc
+
+
+def share_labels(rng, block, st):
+    """the pattern 'same label in several branches of one construct': branches of an IF ladder resp. the CASE/ELSECASE
+    branches of a SWITCH exclude each other, so a label may stand in two of them (each leaf takes part once)"""
+    for node in block:
+        if node[0] == "leaf":
+            continue
+        branches = ([node[2]] if node[0] == "if" else []) + [b for _, b in node[3]] + ([node[4]] if node[4] is not None else [])
+        cands = [[l for l in sym_leaves(b, []) if l[1] != "u" and id(l) not in st["shared"]] for b in branches]
+        have = [i for i, c in enumerate(cands) if c]
+        if len(have) >= 2 and rng.random() < 0.5:
+            i, j = rng.sample(have, 2)
+            a, b = rng.choice(cands[i]), rng.choice(cands[j])
+            b[2] = a[2]
+            st["shared"].update((id(a), id(b)))
+            st["nshared"] += 1
+        for b in [node[2]] + [b for _, b in node[3]] + ([node[4]] if node[4] is not None else []):
+            share_labels(rng, b, st)
+
+
 def flatten(rng, block, out, macros=False):
     """skeleton (python tree) -> list of (token, asm|None); markers are numbered in source order.
     With macros=True a leaf-only IFB/IFNB ladder may be written as a call of a macro whose body is the ladder
     (blank / non-blank *macro arguments*)."""
     for node in block:
         if node[0] == "leaf":
-            if macros and rng.random() < 0.25:
+            if len(node) == 3:
+                out.append(("L:%s%d" % (node[1], node[2]), spell_leaf(rng, node[1], node[2])))
+            elif macros and rng.random() < 0.25:
                 out.append(("L", "\t%s %%d" % rng.choice(LEAF_MACROS)))
             else:
                 out.append(("L", None))
@@ -122,14 +226,84 @@ def number_leaves(stmts):
     """give leaves their markers 1,2,3...; returns (tokens, asm templates, nleaves)"""
     toks, asm, n = [], [], 0
     for t, a in stmts:
-        if t == "L":
+        if t == "L" or t.startswith("L:"):
             n += 1
-            toks.append("L%d" % n)
-            asm.append(n if a is None else a % n)
+            toks.append("L%d" % n + t[1:])
+            asm.append(n if a is None else a.replace("%d", str(n)))
         else:
             toks.append(t)
             asm.append(a)
     return toks, asm, n
+
+
+DEF_PROBES = [
+    "\tifdef N\n\tdw N\n\telse\n\tdw 0ffffh\n\tendif",
+    "\tifndef N\n\tdw 0ffffh\n\telse\n\tdw N\n\tendif",
+    "\tif defined(N)\n\tdw N\n\telseif 1\n\tdw 0ffffh\n\tendif",
+    "\tif symtype(N)<0\n\tdw 0ffffh\n\telse\n\tdw N\n\tendif",
+    "\tswitch defined(N)\n\tcase 1\n\tdw N\n\telsecase\n\tdw 0ffffh\n\tendcase",
+]
+USE_PROBES = [
+    "\tifused N\n\tdw 1\n\telse\n\tdw 0ffffh\n\tendif",
+    "\tifnused N\n\tdw 0ffffh\n\telse\n\tdw 1\n\tendif",
+]
+
+
+def make_case(rng, tag, toks, asm, n):
+    """a packed case: statements, the symbols its leaves are about, the probes behind the construct.
+    Window: [base, base+cw) code, then 2 bytes per probe."""
+    pro, probes, seen, cw = [], [], set(), 1
+    for t in toks:
+        if t[0] != "L":
+            continue
+        if ":" not in t:
+            cw += 1
+            continue
+        m, ks = t[1:].split(":")
+        kind, sym = ks[0], int(ks[1:])
+        cw += LEAF_KINDS[kind][1]
+        if kind == "u":
+            pro.append("r@x%d\tequ %s" % (sym, m))
+            probes.append(("u", sym, rng.choice(USE_PROBES).replace("N", "r@x%d" % sym)))
+            continue
+        for i in [sym] + ([sym + ELEM] if kind == "s" else []):
+            if i not in seen:
+                seen.add(i)
+                probes.append(("d", i, rng.choice(DEF_PROBES).replace("N", sym_name(i))))
+    rng.shuffle(probes)
+    return dict(tag=tag, toks=toks, asm=asm, n=n, pro=pro, probes=probes, cw=cw, w=cw + 2 * len(probes))
+
+
+def case_lines(c, base, idx):
+    """source lines of a case placed at `base` as case number `idx` of its file"""
+    lines = list(c["pro"]) + ["\torg %d" % base]
+    for a in c["asm"]:
+        if a != "":
+            lines.append(("\tdb %d" % a) if isinstance(a, int) else a)
+    if c["probes"]:
+        lines.append("\torg %d" % (base + c["cw"]))
+        lines.extend(p[2] for p in c["probes"])
+    return "\n".join(lines).replace("@", str(idx)).split("\n")
+
+
+def case_obs(c, mem, base, errnums, st):
+    """the observation string of a case from the decoded code file"""
+    code = [mem[a] for a in range(base, base + c["cw"]) if a in mem]
+    syms = []
+    for j, (what, i, _) in enumerate(c["probes"]):
+        pa = base + c["cw"] + 2 * j
+        if pa not in mem or pa + 1 not in mem:
+            syms.append("?%d" % i)           # the probe emitted nothing at all: not a well-formed observation
+            continue
+        v = mem[pa] | (mem[pa + 1] << 8)
+        if v == 0xFFFF:
+            continue
+        if what == "u":
+            syms.append("u%d" % i)
+        else:
+            own = lambda a: str(mem[a]) if base <= a < base + c["cw"] and a in mem else "x"
+            syms.append("d%d=%d/%s/%s" % (i, v, own(v), own(v + 1)))
+    return "%s;%s;%s;%s" % (bytes(code).hex() or "-", ",".join(map(str, errnums)) or "-", st, ",".join(syms) or "-")
 
 
 # ----------------------------------------------------------------------------------------------
@@ -382,25 +556,34 @@ def run_solo(bdir, wd, name, asm, leaf_as_message=True):
     return "%s;%s;%s" % (bytes(m % 256 for m in marks).hex() or "-", ",".join(str(n) for _, n in errs) or "-", st), src
 
 
+def run_case_solo(bdir, wd, name, c):
+    """one packed-style case alone in a file -> (obs string, source)"""
+    src = HEADER + "\n".join(case_lines(c, 16, 0)) + "\n"
+    rc, so, errs, pb = asl(bdir, wd, name, src)
+    st = status_str(rc)
+    if st == "sig":
+        return "-;-;sig;-", src
+    mem = (mem_of_pfile(pb) if pb else None) or {}
+    return case_obs(c, mem, 16, [n for _, n in errs], st), src
+
+
 def run_pack(bdir, wd, name, cases):
-    """cases: list of dict(toks, asm, n).  Returns list of obs strings and the source."""
+    """cases: list of make_case dicts.  Returns list of obs strings and the source."""
     lines = HEADER.rstrip("\n").split("\n")
     base = 16
     ranges = []
-    for c in cases:
+    for idx, c in enumerate(cases):
         lo = len(lines) + 1
         c["base"] = base
-        lines.append("\torg %d" % base)
-        for a in c["asm"]:
-            if a != "":
-                lines.append(("\tdb %d" % a) if isinstance(a, int) else a)
+        c["idx"] = idx
+        lines.extend(case_lines(c, base, idx))
         ranges.append((lo, len(lines)))
-        base += c["n"] + 1
+        base += c["w"] + 1
     src = "\n".join(lines) + "\n"
     rc, so, errs, pb = asl(bdir, wd, name, src)
     st = status_str(rc)
     mem = mem_of_pfile(pb) if pb else None
-    obs = []
+    obs, eslist = [], []
     byline = {}
     unpos = []
     for ln, num in errs:
@@ -409,13 +592,13 @@ def run_pack(bdir, wd, name, cases):
         else:
             byline.setdefault(ln, []).append(num)
     for c, (lo, hi) in zip(cases, ranges):
+        es = [n for ln in range(lo, hi + 1) for n in byline.get(ln, [])]
+        eslist.append(es)
         if st == "sig" or mem is None:
             obs.append(None)
             continue
-        marks = [mem[a] for a in range(c["base"], c["base"] + c["n"] + 1) if a in mem]
-        es = [n for ln in range(lo, hi + 1) for n in byline.get(ln, [])]
-        obs.append("%s;%s;%s" % (bytes(marks).hex() or "-", ",".join(map(str, es)) or "-", st))
-    return obs, src, unpos, st
+        obs.append(case_obs(c, mem, c["base"], es, st))
+    return obs, src, unpos, st, eslist
 
 
 def kv(ans):
@@ -476,7 +659,8 @@ def run(args):
     spec_fail, corr_fail, samples = [], [], []
     dist = dict(E1=0, E2nest=0, E2seq=0, sampled=0, stream_exh=0, stream_rand=0, corpus=0,
                 ladders=0, switches=0, ifb=0, sym=0, depth={}, wellnested_streams=0, illnested_streams=0,
-                predicted_crash=0, err_numbers={}, packs=0, solo_runs=0)
+                predicted_crash=0, err_numbers={}, packs=0, solo_runs=0, leaf_kinds={}, shared_labels=0, symbol_probes=0,
+                symbols_found_defined=0, symbols_found_undefined=0)
     distinct = set()
     evaluations = 0
 
@@ -491,11 +675,24 @@ def run(args):
         # ---------------- well-formed skeletons, packed
         cases = []
 
+        kinds = sorted(LEAF_KINDS)
+
         def add_case(tag, block):
+            if rng.random() < 0.55:
+                # leaves about symbols, the same label in branches that exclude each other
+                st = dict(n=0, kinds=kinds, weights=[LEAF_KINDS[k][0] for k in kinds], shared=set(), nshared=0)
+                block = decorate(rng, block, st, rng.choice([0.25, 0.5, 0.8]))
+                share_labels(rng, block, st)
+                dist["shared_labels"] += st["nshared"]
             toks, asm, n = number_leaves(flatten(rng, block, [], macros=True))
             if n > 230 or len(toks) > 1500:
                 return
-            cases.append(dict(tag=tag, toks=toks, asm=asm, n=n))
+            cases.append(make_case(rng, tag, toks, asm, n))
+            for t in toks:
+                if t[0] == "L" and ":" in t:
+                    k = t.split(":")[1][0]
+                    dist["leaf_kinds"][k] = dist["leaf_kinds"].get(k, 0) + 1
+            dist["symbol_probes"] += len(cases[-1]["probes"])
             dist["ifb_macro_style"] = dist.get("ifb_macro_style", 0) + sum(1 for a in asm if isinstance(a, str) and a[:3] in ("\ttb", "\ttn"))
             d = depth_of(block)
             dist["depth"][d] = dist["depth"].get(d, 0) + 1
@@ -516,8 +713,12 @@ def run(args):
             for f in sorted(os.listdir(cdir)):
                 if f.endswith(".json"):
                     d = json.load(open(os.path.join(cdir, f)))
-                    corpus_streams.append(("corpus:" + f, d["toks"], [a if not isinstance(a, str) or not a.isdigit() else int(a) for a in d["asm"]]))
                     dist["corpus"] += 1
+                    if d.get("packed"):
+                        # a well-formed skeleton with symbol leaves: goes through the packed path (probes behind the construct)
+                        cases.append(make_case(rng, "corpus:" + f, d["toks"], d["asm"], sum(1 for t in d["toks"] if t[0] == "L")))
+                        continue
+                    corpus_streams.append(("corpus:" + f, d["toks"], [a if not isinstance(a, str) or not a.isdigit() else int(a) for a in d["asm"]]))
         for kind, blk in exhaustive_blocks():
             add_case(kind, blk)
             dist[kind] += 1
@@ -533,11 +734,11 @@ def run(args):
         packs = []
         cur, room = [], 60000
         for c in cases:
-            if len(cur) >= 1500 or room < c["n"] + 2:
+            if len(cur) >= 1500 or room < c["w"] + 2:
                 packs.append(cur)
                 cur, room = [], 60000
             cur.append(c)
-            room -= c["n"] + 1
+            room -= c["w"] + 1
         if cur:
             packs.append(cur)
         dist["packs"] = len(packs)
@@ -551,14 +752,27 @@ def run(args):
 
         reqs, metas = [], []
         n_confirm = 0
-        for p, (obs, src, unpos, st) in zip(packs, pack_results):
+        for p, (obs, src, unpos, st, eslist) in zip(packs, pack_results):
             for n in unpos:
                 dist["err_numbers"][n] = dist["err_numbers"].get(n, 0) + 1
             redo = st != "0" or unpos
+            again = {}
+            if redo and not unpos and st != "sig":
+                # an error was reported (=> no code file for the whole pack): the cases the diagnostics point at run alone,
+                # the others are packed once more
+                rest = [c for c, es in zip(p, eslist) if not any(e >= 1000 for e in es)]
+                if 0 < len(rest) < len(p):
+                    obs2, src2, unpos2, st2, es2 = run_pack(bdir, wd, "repack", rest)
+                    dist["repacks"] = dist.get("repacks", 0) + 1
+                    if st2 == "0" and not unpos2 and all(o is not None for o in obs2):
+                        again = {id(c): o for c, o in zip(rest, obs2)}
             for c, o in zip(p, obs):
-                if o is None or redo:
+                if id(c) in again:
+                    o = again[id(c)]
+                    c["src"] = None
+                elif o is None or redo:
                     # the pack as a whole failed (error => no code file): attribute by running the case alone
-                    o, s1 = run_solo(bdir, wd, "redo", c["asm"], leaf_as_message=False)
+                    o, s1 = run_case_solo(bdir, wd, "redo", c)
                     dist["solo_runs"] += 1
                     c["src"] = s1
                 else:
@@ -576,13 +790,16 @@ def run(args):
             if k.get("skel") != "1":
                 proof_problems.append("generator/driver: a generated skeleton was not recognised as one: " + c["tag"])
                 continue
-            src = c["src"] or solo_source(c["asm"], False)
+            src = c["src"] or (HEADER + "\n".join(case_lines(c, 16, 0)) + "\n")
+            nd = o.split(";")[3].count("d") if o.count(";") >= 3 else 0
+            dist["symbols_found_defined"] += nd
+            dist["symbols_found_undefined"] += sum(1 for p in c["probes"] if p[0] == "d") - nd
             kind, d = classify(k, c["tag"], c["toks"], o, src, cfg)
             if kind == "spec":
                 # confirm on the case alone (packed neighbours must not be blamed)
                 if c["src"] is None and n_confirm < 25:
                     n_confirm += 1
-                    o2, s2 = run_solo(bdir, wd, "confirm", c["asm"], leaf_as_message=False)
+                    o2, s2 = run_case_solo(bdir, wd, "confirm", c)
                     k2 = kv(common.driver("c12", ["%s %s %s" % (cfgs(cfg), o2, " ".join(c["toks"]))])[0])
                     kind, d = classify(k2, c["tag"], c["toks"], o2, s2, cfg)
             if kind == "spec":
@@ -647,16 +864,19 @@ def run(args):
     res.coverage = common.proof_coverage(audit, "C12", [
         "calibration probes (`ifb ,x`, lone `elsecase`, skipped `switch/endcase`) choose the model's Cfg; the spec does not depend on them",
         "correspondence: real asl vs Model/Cond on generated sources (differential test)",
-        "generator's spelling of conditions (literal expressions, defined/used symbols, existing file, blank arguments) is the oracle for the evaluated truth values"])
+        "generator's spelling of conditions (literal expressions, defined/used symbols, existing file, blank arguments) is the oracle for the evaluated truth values",
+        "symbols: after each packed skeleton every symbol its leaves are about is probed (IFDEF/IFNDEF/DEFINED()/SYMTYPE()/SWITCH DEFINED(): value or FFFF; IFUSED/IFNUSED); the set found defined / referenced is compared with Spec `definedBy (selB b)` / `usedBy (selB b)` and with the model's definition / reference events, label values with the address of the leaf's own code"])
     res.coverage.update(
         evaluations=evaluations, distinct_nontrivial=len([t for t in distinct if t.count(" ") >= 1]),
         exhaustive=False, exhaustive_part="all skeletons of <= 2 constructs (IF ladder with <= 2 ELSEIF + optional ELSE, SWITCH with <= 2 CASE + optional ELSECASE), nested or in sequence, x all condition vectors; all statement streams of length <= %d over a %d-letter alphabet" % (3 if thorough else 2, len(ALPHABET)),
-        rule="a case = one skeleton or one statement stream with its condition values; distinct by driver token list; non-trivial = at least two statements",
+        rule="a case = one skeleton (with the symbol kinds of its leaves) or one statement stream with its condition values; distinct by driver token list; non-trivial = at least two statements",
         samples=samples, distribution=dist, calibrated_cfg=dict(ifbStride=stride, elsecaseNullCrash=crash, deadSwitchWarns=deadwarn))
     res.assumptions = [
         "float selector values are the exactly representable k/4; equality of doubles on them is equality of k",
         "leaves of one-per-file streams are `message` lines (asl deletes the code file when an error was reported)",
-        "IF/ELSEIF expressions are evaluated correctly by the expression evaluator (C08's subject): only trivially true/false spellings are used"]
+        "IF/ELSEIF expressions are evaluated correctly by the expression evaluator (C08's subject): only trivially true/false spellings are used",
+        "leaves about symbols occur in the packed well-formed skeletons only (ill-formed streams keep plain leaves); labels stand in front of ordinary lines, not in front of the IF/ELSE/ENDIF/SWITCH/CASE lines themselves",
+        "the symbol probes are themselves conditional statements (live, depth 1) and use IFDEF/DEFINED/SYMTYPE/IFUSED as the observation of the symbol table"]
     return common.conclude(res, proof_problems, spec_fail, corr_fail, evaluations)
 
 
